@@ -27,10 +27,10 @@ type fieldLayout struct {
 }
 
 type sliceLayout struct {
-	Typ, Field    string
-	Off, Len      int
+	Typ, Field               string
+	Off, Len                 int
 	Getter, Setter, EncField string
-	RFC           string
+	RFC                      string
 }
 
 var rfcFields = []fieldLayout{
@@ -304,12 +304,24 @@ func propC15Options(c *Ctx, bp *bitprov) {
 		fn         string
 		kind, size int
 		buf        int // index of the buffer parameter
-		vals       []struct{ param string; off, bytes int }
+		vals       []struct {
+			param      string
+			off, bytes int
+		}
 	}
 	encs := []enc{
-		{"header.EncodeMSSOption", 2, 4, 1, []struct{ param string; off, bytes int }{{"$0", 2, 2}}},
-		{"header.EncodeWSOption", 3, 3, 1, []struct{ param string; off, bytes int }{{"$0", 2, 1}}},
-		{"header.EncodeTSOption", 8, 10, 2, []struct{ param string; off, bytes int }{{"$0", 2, 4}, {"$1", 6, 4}}},
+		{"header.EncodeMSSOption", 2, 4, 1, []struct {
+			param      string
+			off, bytes int
+		}{{"$0", 2, 2}}},
+		{"header.EncodeWSOption", 3, 3, 1, []struct {
+			param      string
+			off, bytes int
+		}{{"$0", 2, 1}}},
+		{"header.EncodeTSOption", 8, 10, 2, []struct {
+			param      string
+			off, bytes int
+		}{{"$0", 2, 4}, {"$1", 6, 4}}},
 		{"header.EncodeSACKPermittedOption", 4, 2, 0, nil},
 	}
 	produced := map[int]int{}
